@@ -154,6 +154,43 @@ def scan_asserts(repo):
     return sites
 
 
+def scan_ndebug_regions(repo):
+    """every preprocessor conditional that tests NDEBUG: the lines it guards are compiled into one build only.  A region is
+    `pure` when those lines hold nothing but assert(...) statements, #include lines and blank lines."""
+    regs = []
+    for d in ('dfs', 'basic'):
+        for f in sorted(os.listdir(os.path.join(repo, d))):
+            if not f.endswith(('.cc', '.c', '.h')):
+                continue
+            rel = os.path.join(d, f)
+            lines = strip_c_comments(open(os.path.join(repo, rel), encoding='latin-1').read()).split('\n')
+            stack = []          # (is_ndebug_region, start line, body lines)
+            for ln, l in enumerate(lines, 1):
+                t = l.strip()
+                if re.match(r'#\s*(if|ifdef|ifndef)\b', t):
+                    stack.append([bool(re.search(r'\bNDEBUG\b', t)), ln, [], t])
+                elif re.match(r'#\s*(elif|else)\b', t):
+                    if stack:
+                        if re.search(r'\bNDEBUG\b', t):
+                            stack[-1][0] = True
+                        if stack[-1][0]:
+                            stack[-1][2].append('')      # the other branch belongs to the same region
+                elif re.match(r'#\s*endif\b', t):
+                    if stack:
+                        isn, start, body, head = stack.pop()
+                        if isn:
+                            code = [b for b in body if b.strip()]
+                            impure = [b for b in code if not re.match(r'^\s*(assert\s*\(.*\)\s*;|#\s*include\b.*)\s*$', b)]
+                            regs.append({'file': rel, 'line': start, 'pure': not impure, 'text': (head + ' … ' + ' '.join(' '.join(code).split()))[:160]})
+                        elif stack and stack[-1][0]:
+                            pass
+                else:
+                    for fr in stack:
+                        if fr[0]:
+                            fr[2].append(l)
+    return regs
+
+
 def stmt_after(src, i):
     """the statement or block starting at src[i:] (after an if-condition): returns text"""
     n = len(src)
@@ -248,7 +285,13 @@ def generate(repo, out, report, write_if_changed):
                '   purity verdict for its argument (impure = contains an assignment, an increment or decrement, new or delete, or a call to a function\n'
                '   that is not on the list of known side-effect-free accessors). -/\n'
                'namespace Beeb.Gen\n\nstructure AssertSite where\n  file : String\n  line : Nat\n  pure : Bool\n  text : String\nderiving Repr\n\n')
-        write_if_changed(os.path.join(out, 'Asserts.lean'), hdr + 'def assertSites : List AssertSite := [\n' + body + '\n]\n\nend Beeb.Gen\n')
+        regs = scan_ndebug_regions(repo)
+        rbody = ',\n'.join('  { file := "%s", line := %d, pure := %s, text := "%s" }' % (x['file'], x['line'], 'true' if x['pure'] else 'false', esc(x['text'])) for x in regs)
+        rtxt = ('\n/-- every `#if`/`#ifdef`/`#ifndef`/`#elif` that tests NDEBUG, with a purity verdict for the lines it guards (pure = nothing\n'
+                '    but assert(...) statements, #include lines and blank lines: anything else is code that exists in one build only) -/\n'
+                'def ndebugRegions : List AssertSite := [\n' + rbody + '\n]\n')
+        write_if_changed(os.path.join(out, 'Asserts.lean'), hdr + 'def assertSites : List AssertSite := [\n' + body + '\n]\n' + rtxt + '\nend Beeb.Gen\n')
+        report['tables']['ndebug_regions'] = {'regions': len(regs), 'impure': [x for x in regs if not x['pure']]}
         report['tables']['asserts'] = {'sites': len(sites), 'impure': [x for x in sites if not x['pure']]}
     except Exception as e:
         problems.append({'property': 'C19', 'what': 'assert scan failed: %s' % e})
